@@ -169,4 +169,25 @@ theorem setNets_refines (s : Nets) (limits cells : List Int) (nxo nyo nwt : Nat)
       · have hp' : pinsInRange s.nbCells cells = false := by simpa using hp
         simp [hs, hne0, ← e3, h1, h1i, hp']
     · simp [hs, hne0, ← e3, h1, h1i, h2]
+
+set_option maxRecDepth 4000 in
+theorem setNetWeights_refines (s : Nets) (nwt : Nat) :
+    ∀ f ∈ ApiSizes.setters, f.name = "setNetWeights" →
+      ((execS noCallS [⟨nwt, [], 0⟩] 0 f.body ⟨false, absSz s⟩).out = .thrown ↔ setNetWeights s nwt = none) ∧
+      netView (execS noCallS [⟨nwt, [], 0⟩] 0 f.body ⟨false, absSz s⟩).st.sz
+        = netView (absSz (step s (.weights nwt))) := by
+  simp only [ApiSizes.setters, List.forall_mem_cons]
+  repeat' apply And.intro
+  all_goals first
+    | exact fun x hx => absurd hx List.not_mem_nil
+    | (intro h; exact absurd h (by decide))
+    | skip
+  intro _
+  simp only [execS, Cond.eval, Expr.eval, envOf_arg, envOf_nbNets, argAt, List.getD_cons_zero, step, apply?,
+    setNetWeights]
+  have hnl : (absSz s).len "netLimits_" = s.limits.length := by simp [absSz]
+  simp only [hnl]
+  by_cases h : (nwt : Int) = (s.limits.length : Int) - 1
+  · simp [h, netView, applyEff, LExpr.eval, Sz.set, absSz, argAt]
+  · simp [h]
 end ColoVerif.NetsValue
